@@ -20,7 +20,7 @@ from pathlib import Path
 VERIF = Path(__file__).resolve().parent.parent
 LEAN = VERIF / 'lean'
 REPO = Path(os.environ.get('VERIF_REPO', '/repo'))
-DRIVER = LEAN / '.lake' / 'build' / 'bin' / 'dwdriver'
+DRIVER = Path(os.environ.get('VERIF_DRIVER') or (LEAN / '.lake' / 'build' / 'bin' / 'dwdriver'))
 EVIDENCE = VERIF / 'evidence'
 REPLAYS = VERIF / 'replays'
 KNOWN_FINDINGS = VERIF / 'KNOWN_FINDINGS.jsonl'
